@@ -884,7 +884,18 @@ class STensor:
             shape = broadcast_shapes(self.shape, o.shape)
             a = self.expand(shape).flat() if tuple(self.shape) != tuple(shape) else self.flat()
             b = o.expand(shape).flat() if tuple(o.shape) != tuple(shape) else o.flat()
-            dt = out_dtype or _promote(self.dtype, o.dtype)
+            if self.dtype.is_floating_point and o.dtype.is_floating_point and self.dtype.name != o.dtype.name:
+                # torch type promotion: a 0-dim tensor does not widen a dimensioned one of the same category
+                if self.ndim == 0 and o.ndim > 0:
+                    dt = out_dtype or o.dtype
+                elif o.ndim == 0 and self.ndim > 0:
+                    dt = out_dtype or self.dtype
+                else:
+                    dt = out_dtype or _promote(self.dtype, o.dtype)
+                    narrow = self if dt.name == o.dtype.name else o
+                    PRECISION_EVENTS.append((narrow.dtype.name, dt.name))
+            else:
+                dt = out_dtype or _promote(self.dtype, o.dtype)
             return STensor.from_flat([f(x, y) for x, y in zip(a, b)], shape, dt)
         dt = out_dtype or (self.dtype if not (isinstance(o, (Fraction, float, Rat)) and not self.dtype.is_floating_point
                                               and not (isinstance(o, Rat) and FACTS.is_integral(o))) else FLOAT)
@@ -1274,7 +1285,14 @@ def _truth(x) -> bool:
     return s != 0
 
 
+_FLOAT_WIDTH = {"float16": 16, "bfloat16": 16, "float32": 32, "float64": 64}
+PRECISION_EVENTS: List[Tuple[str, str]] = []  # (narrow, wide): a tensor computed in a narrower float type entered wider arithmetic
+
+
 def _promote(a: DType, b: DType) -> DType:
+    if a.is_floating_point and b.is_floating_point:
+        wa, wb = _FLOAT_WIDTH.get(a.name, 32), _FLOAT_WIDTH.get(b.name, 32)
+        return a if wa >= wb else b
     if a.is_floating_point:
         return a
     if b.is_floating_point:
